@@ -84,7 +84,7 @@ for _p in ("C08", "C04"):
     PROPS[_p]["parts"].append({"name": "fuzz", "gofuzz": "FuzzHandleMessage", "fuzztime": 240, "rule": _FUZZ_RULE, "test": "FuzzHandleMessage"})
 for _p in ("C01", "C02", "C07", "C09", "C10"):
     PROPS[_p]["parts"].append(dict(H("Test%sSched" % _p, "S", 1500, 4000, qs=2, ts=16, hang_is_violation=True), sched=True))
-    PROPS[_p]["assumptions"] = PROPS[_p]["assumptions"] + ["part S: scheduling points exist only at the lock acquisitions of models/*.go and modules/*/state.go (sync import redirected to the overlay package vsync); interleavings inside a critical section are not explored; RWMutex is modelled with Go's writer preference; thorough tier enumerates all schedules with <= 2 preemptions for up to 400 generated blocks per shard"]
+    PROPS[_p]["assumptions"] = PROPS[_p]["assumptions"] + ["part S: scheduling points exist only at the lock acquisitions of models/*.go and modules/*/state.go (sync import redirected to the overlay package vsync); interleavings inside a critical section are not explored; RWMutex is modelled with Go's writer preference; thorough tier enumerates all schedules with <= 2 preemptions for up to 120 generated blocks per shard (at most 2000 schedules each)"]
 PROPS["C06"]["parts"].append(H("TestC06Backpressure", "Wbp", 40, 400, qs=1, ts=8, hang_is_violation=True))
 PROPS["C11"]["parts"].append(H("TestC11Backpressure", "Wbp", 40, 400, qs=1, ts=8))
 PROPS["C11"]["assumptions"] = PROPS["C11"]["assumptions"] + ["part Wbp runs on real threads in real time (a synctest bubble cannot see goroutines blocked on a mutex); waiting is bounded and an exhausted wait is inconclusive"]
